@@ -33,6 +33,8 @@ Entry = (file relative to the repository, identifier, kind, scope).  Kinds:
     logger-init            `pyo3_log::init`
     clock                  `<X>::now`
     env                    `env::var*` / `env::args*`
+    hash-container         `HashMap`, `HashSet`, `RandomState`, `DefaultHasher`, `hash_map`, `hash_set`,
+                           `BuildHasher` (iteration order depends on a per-instance random state)
     arc-identity           `ptr_eq`, `as_ptr`, `make_mut`, `Arc::get_mut`, `strong_count`, `weak_count`,
                            `into_raw`, `from_raw`
     pyclass-mutable        `#[pyclass…]` without `frozen` (identifier = the struct's name)
@@ -57,6 +59,10 @@ SKIP_FILES = {"opening-hours-py/src/bin/stub_gen.rs"}
 
 STATE_NAMES = {"LazyLock", "OnceLock", "OnceCell", "Once", "Cell", "RefCell", "UnsafeCell", "Mutex", "RwLock",
                "Condvar", "thread_local", "lazy_static", "LazyCell"}
+# containers whose ITERATION ORDER depends on a per-instance random state (std's RandomState): looking a
+# key up is a function of the content, iterating is not; every occurrence outside a `use` declaration
+# and outside the type of a `static` item is listed (kind hash-container)
+HASH_NAMES = {"HashMap", "HashSet", "RandomState", "DefaultHasher", "hash_map", "hash_set", "BuildHasher"}
 ARC_IDENTITY = {"ptr_eq", "as_ptr", "make_mut", "strong_count", "weak_count", "into_raw", "from_raw"}
 LOG_LEVELS = {"error", "warn", "info", "debug", "trace", "log"}
 
@@ -277,6 +283,8 @@ def scan_file(rel, text):
             entries.append((rel, f"{toks[i - 3]}::now", "clock", scope()))
         elif t == "env" and toks[i + 1:i + 3] == [":", ":"] and re.match(r"(var|args)", toks[i + 3]):
             entries.append((rel, f"env::{toks[i + 3]}", "env", scope()))
+        elif t in HASH_NAMES:
+            entries.append((rel, t, "hash-container", scope()))
         elif t in ARC_IDENTITY:
             entries.append((rel, t, "arc-identity", scope()))
         elif t == "get_mut" and toks[i - 3:i] == ["Arc", ":", ":"]:
